@@ -61,6 +61,7 @@ type Exec struct {
 	lastTokenPort          int
 	lastTokenStream        bool
 	nonceFresh, nonceStale bool          // state of the client's nonce at the last authenticated request
+	extraReq               []*reqInfo    // requests sent just before the next exchange, without waiting for their answers
 	tieRestore             time.Duration // sub-second offset to return to after a deliberate tie (-1: none)
 }
 
